@@ -18,10 +18,13 @@ RULE = ("BFS over all factor sequences of length <= L over the factor alphabet f
 NUM = (int, float)
 
 SCALABLE = {
-    "KDAdditiveGaussianNoise": [dict(std=0.1), dict(std=0.1, magnitude=0.6, magnitude_std=0.2, magnitude_min=0.1, magnitude_max=0.9)],
+    "KDAdditiveGaussianNoise": [dict(std=0.1), dict(std=0.1, magnitude=0.6, magnitude_std=0.2, magnitude_min=0.1, magnitude_max=0.9),
+                                dict(std=0.1, magnitude=0, magnitude_std=0.0, magnitude_max=0)],
     "KDAdditiveUniformNoise": [dict(), dict(magnitude=0.5, magnitude_std=0.1)],
     "KDColorJitter": [dict(brightness=0.4, contrast=0.4, saturation=0.2, hue=0.1), dict(brightness=(0.5, 1.2), hue=(-0.2, 0.3)),
-                      dict(contrast=0.8)],
+                      dict(contrast=0.8),
+                      # ranges whose lower bound is exactly 0 (jitter >= 1 is clipped to 0 by torchvision) and the widest hue
+                      dict(brightness=1.0, contrast=1.5, saturation=(0.0, 1.6), hue=0.5)],
     "KDGaussianBlurPIL": [dict(sigma=(0.1, 2.0)), dict(sigma=1.5)],
     "KDGaussianBlurTV": [dict(kernel_size=3, sigma=(0.1, 2.0))],
     "KDRandAugment": [dict(num_ops=2, magnitude=9, magnitude_std=0.5, interpolation="bicubic", fill_color=(124, 116, 104))],
@@ -30,12 +33,12 @@ SCALABLE = {
     "KDRandomColorJitter": [dict(p=0.8, brightness=0.4, contrast=0.4, saturation=0.2, hue=0.1)],
     "KDRandomGaussianBlurPIL": [dict(p=0.5, sigma=(0.1, 2.0))],
     "KDRandomGaussianBlurTV": [dict(p=0.5, kernel_size=3, sigma=(0.1, 2.0))],
-    "KDRandomGrayscale": [dict(p=0.2), dict(p=1.0)],
-    "KDRandomRotation": [dict(degrees=30), dict(degrees=(-10, 10))],
-    "KDRandomSolarize": [dict(p=0.2, threshold=128), dict(p=0.2, threshold=0.5)],
+    "KDRandomGrayscale": [dict(p=0.2), dict(p=1.0), dict(p=0.0)],
+    "KDRandomRotation": [dict(degrees=30), dict(degrees=(-10, 10)), dict(degrees=0)],
+    "KDRandomSolarize": [dict(p=0.2, threshold=128), dict(p=0.2, threshold=0.5), dict(p=0.2, threshold=0), dict(p=0.2, threshold=0.0)],
     "KDRandomThreshold": [dict(p=0.5, threshold=0.5, threshold_std=0.1)],
-    "KDSolarize": [dict(threshold=128), dict(threshold=0.25)],
-    "KDThreshold": [dict(threshold=0.5, threshold_std=0.1)],
+    "KDSolarize": [dict(threshold=128), dict(threshold=0.25), dict(threshold=0), dict(threshold=0.0)],
+    "KDThreshold": [dict(threshold=0.5, threshold_std=0.1), dict(threshold=0.0), dict(threshold=1.0, threshold_min=0.5, threshold_std=0.2)],
 }
 
 # attribute name -> expected value at factor 0 ('=sigma_lb' means equal to that other attribute); anything else must satisfy lb == ub
